@@ -516,6 +516,14 @@ func c39Extras() []c39ExtraArg {
 
 			return Configuration{Certificates: cs}, true
 		}},
+		{"certs:same-set-other-order", func(_ *c39Env, cur c39Snap) (Configuration, bool) {
+			if len(cur.Certs) < 2 {
+				return Configuration{}, false
+			}
+			cs := append(append([]Certificate{}, cur.Certs[1:]...), cur.Certs[0])
+
+			return Configuration{Certificates: cs}, true
+		}},
 		{"certs:renewed-over-the-same-key", func(_ *c39Env, cur c39Snap) (Configuration, bool) {
 			// another certificate (new serial, new validity) issued over the private key of the current one
 			if len(cur.Certs) == 0 {
